@@ -43,7 +43,7 @@ from explorerscript.ssb_converting.ssb_data_types import (
     SsbOpParamFixedPoint,
 )
 from explorerscript.ssb_converting.ssb_special_ops import SsbLabel, SsbLabelJump
-from explorerscript.util import exps_int, _
+from explorerscript.util import exps_int, _, f
 
 
 class ListenerArgType(Enum):
@@ -323,3 +323,6 @@ class SsbScriptCompilerListener(SsbScriptListener):
                 self.routine_infos.append(None)  # type: ignore
                 self.routine_ops.append([])
                 self.named_coroutines.append([])  # type: ignore
+        elif self.routine_infos[self._active_routine_id] is not None:
+            # The second routine would replace the first; jumps to the labels of the first would point nowhere.
+            raise SsbCompilerError(f(_("The routine id {self._active_routine_id} is used more than once.")))
